@@ -43,31 +43,83 @@ def gen_schema(rng, name):
     return s
 
 
-def gen_obj(rng, name, aliases, prev=None, valid_only=True):
-    """a fresh random object, or a mutation of `prev` (one or two sections change)"""
+SECTION_FIELDS = {"gates": ("ann", "gates"), "fc": ("fc",), "sn": ("sn",), "tls": ("cert", "key", "ca"),
+                  "eps": ("eps",), "pol": ("pol",), "log": ("log",)}
+EMPTY = {"ann": 0, "gates": [], "fc": [], "sn": [], "cert": 0, "key": 0, "ca": 0, "log": 0}
+
+
+def _copy(v):
+    if isinstance(v, list):
+        return [_copy(x) for x in v]
+    if isinstance(v, dict):
+        return {k: _copy(x) for k, x in v.items()}
+    return v
+
+
+def pol_valid(o):
+    names = [bytes(s["name"]) for s in o["fc"]]
+    present = [e["e"] for e in o["eps"]]
+    return bool(o["pol"]) and all((not p["fc"] or bytes(p["fc"]) in names) and all(e in present for e in p["subset"])
+                                  for p in o["pol"])
+
+
+def gen_obj(rng, name, aliases, prev=None, valid_only=True, history=()):
+    """a fresh random object, or a mutation of `prev` (one to three sections change).
+
+    A section that changes is, with probability ~1/3, RESTORED verbatim from an earlier version of the same
+    cluster (`history`, which also holds versions from before a removal or a delete of the cluster), with
+    probability ~1/5 REMOVED (nil / empty), otherwise drawn at random: value -> removed -> the identical
+    earlier value is therefore a frequent shape for every section, so that any "unchanged since I last
+    looked" shortcut in a section syncer that is not invalidated by the intermediate change shows up."""
     if prev is not None and rng.chance(3, 4):
-        o = {k: (list(v) if isinstance(v, list) else v) for k, v in prev.items()}
+        o = _copy(prev)
         sections = rng.sample(["gates", "fc", "sn", "tls", "eps", "pol", "log"], rng.choice([1, 1, 2, 3]))
     else:
         o = {"name": B(name), "ann": 0, "gates": [], "fc": [], "sn": [], "cert": 0, "key": 0, "ca": 0, "eps": [],
              "pol": [], "log": 0, "client": 0}
         sections = ["gates", "fc", "sn", "tls", "eps", "pol", "log"]
     o["client"] = 0
-    if "gates" in sections:
+    how = {}
+    for sec in sections:
+        k = rng.below(100)
+        fields = SECTION_FIELDS[sec]
+        if history and k < 35:
+            # prefer an earlier version whose section differs from the current one
+            diff = [h for h in history if any(h[f] != o[f] for f in fields)]
+            src = rng.choice(diff or list(history))
+            if sec == "tls" and rng.chance(1, 3):
+                f = rng.choice(fields)               # one of key / cert / CA only
+                o[f] = _copy(src[f])
+            elif sec == "fc" and src["fc"] and rng.chance(1, 3):
+                one = _copy(rng.choice(src["fc"]))   # one schema only
+                o["fc"] = [x for x in o["fc"] if x["name"] != one["name"]] + [one]
+            else:
+                for f in fields:
+                    o[f] = _copy(src[f])
+            how[sec] = "restore"
+        elif k < 55 and sec not in ("eps", "pol"):
+            for f in fields:
+                o[f] = _copy(EMPTY[f])
+            if sec == "gates":
+                o["ann"] = rng.below(4)              # nil map / empty map / other key / empty value
+            how[sec] = "remove"
+        else:
+            how[sec] = "random"
+    if how.get("gates") == "random":
         o["ann"] = rng.below(4)
-        o["gates"] = [[rng.below(4), rng.below(2)] for _ in range(rng.choice([0, 0, 1, 1, 2, 3]))]
-    if "fc" in sections:
+        o["gates"] = [[rng.below(4), rng.below(2)] for _ in range(rng.choice([0, 1, 1, 2, 3]))]
+    if how.get("fc") == "random":
         names = rng.sample(SCHEMAS, rng.choice([0, 1, 1, 2, 3]))
         o["fc"] = [gen_schema(rng, n) for n in names]
-    if "sn" in sections:
-        o["sn"] = [B(a) for a in rng.sample(aliases, rng.choice([0, 0, 1, 1, 2, 3]))]
+    if how.get("sn") == "random":
+        o["sn"] = [B(a) for a in rng.sample(aliases, rng.choice([0, 1, 1, 2, 3]))]
         if o["sn"] and rng.chance(1, 8):
             o["sn"].append(rng.choice(o["sn"]))  # duplicate alias
         if rng.chance(1, 10):
             o["sn"].append(B(name))  # own name as alias
-    if "tls" in sections:
+    if how.get("tls") == "random":
         k = rng.below(10)
-        if k < 3:
+        if k < 2:
             o["cert"] = o["key"] = 0
         elif k < 7:
             o["cert"] = o["key"] = rng.randint(1, 3)
@@ -77,14 +129,14 @@ def gen_obj(rng, name, aliases, prev=None, valid_only=True):
             o["cert"], o["key"] = 0, rng.randint(1, 3)
         else:
             o["cert"] = o["key"] = rng.randint(1, 3)
-        o["ca"] = rng.choice([0, 0, 1, 2, 3])
-    if "eps" in sections or not o["eps"]:
+        o["ca"] = rng.choice([0, 1, 2, 3])
+    if how.get("eps") == "random" or not o["eps"]:
         eps = rng.sample(range(NEP), rng.randint(1, 3))
         o["eps"] = [{"e": e, "dis": rng.choice([0, 0, 1, 2])} for e in eps]
         if rng.chance(1, 10):
             o["eps"].append({"e": eps[0], "dis": rng.choice([0, 2])})  # duplicate endpoint
     present = [e["e"] for e in o["eps"]]
-    if "pol" in sections or not o["pol"] or "eps" in sections or "fc" in sections:
+    if how.get("pol") == "random" or not pol_valid(o):
         pol = []
         for _ in range(rng.randint(1, 3)):
             fcn = b""
@@ -93,7 +145,7 @@ def gen_obj(rng, name, aliases, prev=None, valid_only=True):
             sub = rng.sample(present, rng.choice([0, 0, 1, 2])) if present else []
             pol.append({"verbs": rng.choice(VERBSETS), "fc": B(fcn), "subset": sorted(set(sub)), "log": rng.below(3)})
         o["pol"] = pol
-    if "log" in sections:
+    if how.get("log") == "random":
         o["log"] = rng.below(3)
     if not valid_only:
         k = rng.below(6)
@@ -123,6 +175,7 @@ def gen_history(rng, n_ops=None, p_force=0, p_invalid=0, p_retry=0, p_gap=0):
     n = n_ops or rng.randint(5, 25)
     ops = []
     last = {}
+    versions = {}   # every version ever generated per cluster, also across deletes
     for i in range(n):
         k = rng.below(100)
         if k < 12 and last:
@@ -141,7 +194,9 @@ def gen_history(rng, n_ops=None, p_force=0, p_invalid=0, p_retry=0, p_gap=0):
         else:
             nm = rng.choice(clusters)
             invalid = rng.below(100) < p_invalid
-            o = gen_obj(rng, nm, aliases, last.get(nm), valid_only=not invalid)
+            o = gen_obj(rng, nm, aliases, last.get(nm), valid_only=not invalid, history=versions.get(nm, ()))
+            if not invalid:
+                versions.setdefault(nm, []).append(o)
             gap = rng.below(100) < p_gap
             if gap:
                 o["client"] = 1   # insecure + CA: refused by validation and by client-go; only reaches the controller forced
